@@ -176,12 +176,24 @@ def random_tree(rnd, lo, hi):
 
 
 # ---------------------------------------------------------------- binding driver
+def target_name(sig, seed):
+    if sig["leaf"]:
+        return "target"
+    if not sig["pos"] and sig["varargs"] and seed % 3 == 0:
+        return "*"
+    return ["target", "pool"][seed % 2]
+
+
 def build_class(sig, variant, seed):
     from cobald.interfaces import Pool, PoolDecorator, Controller
     from cobald.daemon import service
     import threading
 
-    params = ["self"] + ([] if sig["leaf"] else ["target"])
+    # the parameter that receives the target need not be called "target", and a constructor
+    # "(self, *args, **kwargs)" receives it through *args (the model's keyword "target" stands
+    # for whatever the slot is called: target_name())
+    tname = target_name(sig, seed)
+    params = ["self"] + ([] if sig["leaf"] or tname == "*" else [tname])
     for j, p in enumerate(sig["pos"]):
         params.append(p if j == 0 and seed % 2 else p + "=None")
     if any("=" in p for p in params):  # defaults must not precede non-defaults
@@ -190,7 +202,7 @@ def build_class(sig, variant, seed):
         for p in params:
             if "=" in p:
                 seen = True
-            elif seen and p not in ("self", "target"):
+            elif seen and p not in ("self", "target", "pool"):
                 p = p + "=None"
             fixed.append(p)
         params = fixed
@@ -214,9 +226,18 @@ def build_class(sig, variant, seed):
     if variant == "service":
         def run(self):
             return None
-        body["run"] = run
-        cls = type("Svc", (base,), body)
-        cls = service(flavour=threading)(cls)
+        if seed % 4 == 1:
+            # a template class that SUBCLASSES a service class and has its own constructor:
+            # its own signature is what counts
+            basebody = dict(body, run=run)
+            exec("def __init__(self, %sq1=None, q2=None, *, q3=0):\n    pass\n" % ("" if sig["leaf"] else "target, "), ns)
+            basebody["__init__"] = ns["__init__"]
+            svcbase = service(flavour=threading)(type("SvcBase", (base,), basebody))
+            cls = type("SubSvc", (svcbase,), {"__init__": body["__init__"]})
+        else:
+            body["run"] = run
+            cls = type("Svc", (base,), body)
+            cls = service(flavour=threading)(cls)
     else:
         cls = type("Plain", (base,), body)
     return cls
@@ -234,7 +255,8 @@ def bind_execute(case):
         pos = [("v", idx, j) for j in range(c["npos"])]
         if c["pool"] and pos:
             pos[0] = RecPool()
-        kws = {k: ("kw", idx, k) for k in c["kws"]}
+        tname = target_name(case["sig"], case["seed"])
+        kws = {(tname if k == "target" and tname == "pool" else k): ("kw", idx, k) for k in c["kws"]}
         try:
             tpl = cls.s(*pos, **kws) if tpl is None else tpl(*pos, **kws)
         except TypeError:
